@@ -10,7 +10,7 @@ from .common import walk_own
 PROP = "C18"
 LEVEL = "translation_validation"
 EXPLANATION_M8 = (
-    " M8 the read-only consumers (iterators, Walker, Resolver, RenderTree, search, util) never store attributes on foreign "
+    " M9 no identity-only lint hit (==, in, truth value, hash of a node) occurs in one mixin only. M8 the read-only consumers (iterators, Walker, Resolver, RenderTree, search, util) never store attributes on foreign "
     "objects, never inspect __dict__/__slots__/vars() and never use weakref - the capabilities in which the two storage "
     "models differ."
 )
@@ -41,6 +41,8 @@ def _trace_signatures(p, clsname):
         for trace, outcome, st in res:
             if any(ev.kind == "RAISE" and ev.exc == "TreeError" and ev.node is not None and _is_typecheck_raise(ev) for ev in trace):
                 continue  # NodeMixin-only node-type refusal (frozen difference, dead for tree nodes)
+            if outcome[0] == "raise" and getattr(outcome[1], "origin", None) == "nonnode":
+                continue  # an argument that is not a node at all: refused by whichever access comes first, not a tree-node history
             sig = []
             for ev in trace:
                 if ev.kind == "HOOK":
@@ -77,7 +79,7 @@ def _is_typecheck_raise(ev):
 
 def _inside_typecheck(ev):
     f = ev.func
-    for t in typecheck_statements(f.node):
+    for t in typecheck_statements(f.node, own=f.cls.name if f.cls is not None else None):
         if any(x is ev.node for x in ast.walk(t)):
             return True
     return False
@@ -234,8 +236,9 @@ def _mark_orig(fnode):
         n._orig_id = id(n)
 
 
-def _isinstance_both(test):
-    """`[x is not None and] not isinstance(x, (NodeMixin, LightNodeMixin))`; returns x text or None."""
+def _isinstance_both(test, own=None):
+    """`[x is not None and] not isinstance(x, (NodeMixin, LightNodeMixin))`; returns x text or None.  With `own` given the
+    class tuple only has to contain that class: on a tree built from one mixin such a check never fires either."""
     conj = test.values if isinstance(test, ast.BoolOp) and isinstance(test.op, ast.And) else [test]
     last = conj[-1]
     if not (isinstance(last, ast.UnaryOp) and isinstance(last.op, ast.Not) and isinstance(last.operand, ast.Call)):
@@ -246,7 +249,7 @@ def _isinstance_both(test):
     subj = norm(call.args[0])
     t = call.args[1]
     names = {norm(e) for e in (t.elts if isinstance(t, ast.Tuple) else [t])}
-    if not {"NodeMixin", "LightNodeMixin"} <= names:
+    if not ({"NodeMixin", "LightNodeMixin"} <= names or (own is not None and own in names)):
         return None
     for c in conj[:-1]:
         ok = isinstance(c, ast.Compare) and len(c.ops) == 1 and isinstance(c.ops[0], ast.IsNot) \
@@ -256,11 +259,11 @@ def _isinstance_both(test):
     return subj
 
 
-def typecheck_statements(fnode):
+def typecheck_statements(fnode, own=None):
     """Statements of the frozen shape `if <not a tree node>: <locals>; raise TreeError(...)`."""
     out = []
     for n in ast.walk(fnode):
-        if isinstance(n, ast.If) and not n.orelse and _isinstance_both(n.test) is not None:
+        if isinstance(n, ast.If) and not n.orelse and _isinstance_both(n.test, own) is not None:
             body = n.body
             ok = bool(body) and isinstance(body[-1], ast.Raise) and body[-1].exc is not None \
                 and "TreeError" in norm(body[-1].exc)
@@ -378,7 +381,12 @@ def run(ctx):
                 table_hits += 1
                 ctx.inst("M2-table-typecheck", fa, d.test, "NodeMixin-only node-type check naming both mixins: dead for tree nodes")
         da, sa, na = normalise_func(fa, "NodeMixin", drops)
-        db, sb, nb = normalise_func(fb, "LightNodeMixin")
+        _mark_orig(fb.node)
+        drops_b = typecheck_statements(fb.node, own="LightNodeMixin")
+        for d in drops_b:
+            table_hits += 1
+            ctx.inst("M2-table-typecheck", fb, d.test, "node-type check naming the mixin itself: dead for trees built from it")
+        db, sb, nb = normalise_func(fb, "LightNodeMixin", drops_b)
         if da != db:
             ctx.viol("M4", fb, fb.node, "decorators differ from NodeMixin.%s: %s vs %s" % (key[0], da, db),
                      construct="decorators of %s (%s)" % key)
@@ -392,6 +400,26 @@ def run(ctx):
                          "first difference at %s" % d, construct="%s (%s): %s" % (key[0], key[1], d))
         else:
             ctx.inst("M4", fb, "%s (%s)" % key, "equal to NodeMixin.%s modulo renaming" % key[0])
+    # --- M9 a node compared/hashed/tested by value in ONE of the mixins only: for node classes defining __eq__/__bool__/
+    # __hash__ the two mixins then behave differently (whatever the trace comparison above could establish)
+    from ..lint_identity import lint_program
+    from .common import typer_for
+    hits, _st = lint_program(p, typer_for(ctx), files={nm.module.relpath, lm.module.relpath})
+    per = {}
+    for h in hits:
+        top = h.func
+        while getattr(top, "outer", None) is not None:
+            top = top.outer
+        if top.cls is None or top.cls.name not in (nm.name, lm.name):
+            continue
+        txt = norm(h.node).replace("_%s__" % top.cls.name, "_@__")
+        per.setdefault((top.srcname, top.kind, h.rule, txt), {})[top.cls.name] = h
+    for key, d in sorted(per.items()):
+        if len(d) == 1:
+            cname, h = next(iter(d.items()))
+            ctx.viol("M9", h.func, h.node, "identity-only rule %s is violated in %s only (%s): for node classes defining the special method "
+                     "the two mixins diverge" % (h.rule, cname, h.why), construct="%s.%s: %s one-sided" % (cname, key[0], key[3]))
+    ctx.instances["M9"] += 1
     if struct_diffs:
         # members of the mutators that differ syntactically: equal programs in the sense that matters if the
         # two mixins have the same set of abstract event traces for the three structural entry points
